@@ -184,7 +184,7 @@ pub fn generic_alphabet(kind: Kind, special: bool) -> Vec<Op> {
     } else if kind.bar_native() {
         v.extend([sc[0], bars[1], sc[2], bars[3]]);
         if special {
-            v.extend([sp_s[0], sp_b[1], sp_s[2], sp_b[0]]);
+            v.extend([sp_s[0], sp_b[1], sp_s[2], sp_b[0], sp_s[1]]);
         }
     } else {
         v.extend(sc);
